@@ -54,6 +54,12 @@ func RunOne(t *testing.T, prop *Property, tier string, tp *Tape, keepLog bool) (
 			s.Dial = w.Net.dial
 			simrt.Install(s)
 			defer simrt.Uninstall()
+			s.SelectHook = func(site string, n, chosen int, blocked bool) {
+				// reach probes for the peer manager's multi-way selects (collision kill race etc.)
+				if n >= 3 && len(site) > 7 && site[:7] == "peer.go" {
+					w.Probe(fmt.Sprintf("select:%s#%d", site, chosen))
+				}
+			}
 			w.pickStrategy()
 			s.Spawn("root", "root", func() {
 				prop.Run(w)
